@@ -30,8 +30,8 @@
    Only statements, closed by [exact], with [Print Assumptions] beneath each. *)
 From Coq Require Import List NArith ZArith Bool Permutation.
 From Verif Require Import Base.Outcome Gen.Consts Wire.Item Generic.Types Generic.Enc Generic.Dec.
-From Verif Require Import C01.ComposeFloat C01.ComposeSimple.
-From Verif Require Wire.Simple.
+From Verif Require Import C01.ComposeFloat C01.ComposeSimple C01.ComposeMsgpack.
+From Verif Require Wire.Simple Wire.Msgpack.
 Import ListNotations.
 
 (* ---------------- simple ---------------- *)
@@ -67,6 +67,40 @@ Theorem C01_simple_roundtrip :
   veq (normL exact_losses O (arrange O pi v)) (normL exact_losses O v).
 Proof. exact simple_compose. Qed.
 Print Assumptions C01_simple_roundtrip.
+
+(* ---------------- msgpack ---------------- *)
+
+Theorem C01_msgpack_wire_ok : forall (Of : Msgpack.eopts) (D : Msgpack.dopts),
+  wire_ok (W_msgpack Of D) /\ same_losses (losses_of (W_msgpack Of D)) exact_losses.
+Proof. exact (fun Of D => conj (W_msgpack_ok Of D) (W_msgpack_losses Of D)). Qed.
+Print Assumptions C01_msgpack_wire_ok.
+
+(* msgpack, FULL.  Premises:
+     d_maxdepth D = max_depth O   one MaxDepth for both layers;
+     supportedb               Wire/MsgpackRT.v's [supported] as a boolean: ranges, lengths a 32-bit head
+                              can carry, hashable map keys, no tags, time seconds within int64;
+     leaves_ok                no float32 signalling NaN (comes back quiet), no unsigned >= 2^63 under
+                              SignedInteger (DecodeNaked hands back a negative int64: F07-1n), time
+                              seconds within int64;
+     depth < MaxDepth; the whole input is a Go slice (len < 2^63).
+   Every MsgpackHandle option vector (WriteExt, NoFixedNum, PositiveIntUnsigned, StringToRaw; decode side
+   WriteExt, RawToString, SignedInteger): with WriteExt off a time travels as a 4/8/12-byte raw string
+   and DecodeTime reads it back from there. *)
+Theorem C01_msgpack_roundtrip :
+  forall (Of : Msgpack.eopts) (D : Msgpack.dopts) (O : gopts) (pi : order) (t : ty) (v : gv) (rest : list N),
+  order_ok pi -> wt t v = true -> supported t = true ->
+  Msgpack.d_maxdepth D = max_depth O ->
+  supportedb (to_item O pi v) = true ->
+  leaves_ok (W_msgpack Of D) (to_item O pi v) = true ->
+  (Z.of_nat (depth (to_item O pi v)) < maxdepth O)%Z ->
+  (Msgpack.len (Msgpack.enc Of (to_item O pi v) ++ rest) < 2 ^ 63)%N ->
+  Msgpack.dec_naked D (Msgpack.dec_fuel (Msgpack.enc Of (to_item O pi v) ++ rest))
+                      (Msgpack.enc Of (to_item O pi v) ++ rest)
+    = Ok (wn (W_msgpack Of D) (to_item O pi v), rest) /\
+  of_item (W_msgpack Of D) O 0 t (wn (W_msgpack Of D) (to_item O pi v)) = Ok (normL exact_losses O (arrange O pi v)) /\
+  veq (normL exact_losses O (arrange O pi v)) (normL exact_losses O v).
+Proof. exact msgpack_compose. Qed.
+Print Assumptions C01_msgpack_roundtrip.
 
 (* ---------------- non-vacuity ---------------- *)
 Definition cx_ty : ty :=
@@ -118,3 +152,23 @@ Example C01_simple_zero_as_nil_loss :
   leaves_ok (W_simple o D) (to_item cx_O1 cx_pi v) = false /\
   of_item (W_simple o D) cx_O1 0 (TPtr TBool) (wn (W_simple o D) (to_item cx_O1 cx_pi v)) = Ok (GPtr None).
 Proof. cbv zeta. split; vm_compute; reflexivity. Qed.
+
+Example C01_msgpack_nonvacuous :
+  let Of := Msgpack.mkeopts false false true false in        (* legacy layout (WriteExt off), PositiveIntUnsigned *)
+  let D := Msgpack.mkdopts false false false 0 in
+  supportedb (to_item cx_O1 cx_pi cx_val) = true /\ leaves_ok (W_msgpack Of D) (to_item cx_O1 cx_pi cx_val) = true /\
+  supportedb (to_item cx_O2 cx_pi cx_val) = true /\ leaves_ok (W_msgpack Of D) (to_item cx_O2 cx_pi cx_val) = true /\
+  (Msgpack.len (Msgpack.enc Of (to_item cx_O2 cx_pi cx_val) ++ [7]%N) < 2 ^ 63)%N /\
+  (* the time travels as raw bytes and is read back by DecodeTime from there *)
+  wn (W_msgpack Of D) (ITime 1700000000%Z 123456789%N) = IBytes [29; 111; 52; 84; 101; 83; 241; 0]%N /\
+  rd_time (W_msgpack Of D) (IBytes [29; 111; 52; 84; 101; 83; 241; 0]%N) = Ok (1700000000%Z, 123456789%N) /\
+  (do ir <- Msgpack.dec_naked D 1000 (Msgpack.enc Of (to_item cx_O2 cx_pi cx_val) ++ [7]%N);;
+   of_item (W_msgpack Of D) cx_O2 0 cx_ty (fst ir)) = Ok (normL exact_losses cx_O2 (arrange cx_O2 cx_pi cx_val)) /\
+  (* with the timestamp extension *)
+  (do ir <- Msgpack.dec_naked (Msgpack.mkdopts true true true 0) 1000
+              (Msgpack.enc (Msgpack.mkeopts true true false true) (to_item cx_O1 cx_pi (GList (Some [GTime 5%Z 6%N; GTime (-5)%Z 0%N]))));;
+   of_item (W_msgpack (Msgpack.mkeopts true true false true) (Msgpack.mkdopts true true true 0)) cx_O1 0 (TSlice TTime) (fst ir))
+    = Ok (GList (Some [GTime 5%Z 6%N; GTime (-5)%Z 0%N])).
+Proof.
+  cbv zeta. repeat apply conj; try (vm_compute; reflexivity); try (vm_compute; discriminate).
+Qed.
